@@ -649,6 +649,20 @@ static void make_seeds(const std::string &dir) {
 		put_seed(dir, "vli-0", E_VLI, 0, 0, 0, 0, 0, v1, 1); put_seed(dir, "vli-128", E_VLI, 0, 0, 0, 0, 0, v2, 2); put_seed(dir, "vli-max", E_VLI, 0, 0, 0, 0, 0, v3, 9); put_seed(dir, "vli-10-bytes", E_VLI, 0, 0, 0, 0, 0, v4, 10); put_seed(dir, "vli-padded", E_VLI, 0, 0, 0, 0, 0, v5, 2); }
 	{ const uint8_t l2[] = {0x10}, l1[] = {0x5D, 0, 0, 0x10, 0}, dl[] = {0x03}, bj[] = {0, 0x10, 0, 0};
 		put_seed(dir, "props-lzma2", E_PROPERTIES, 0, 0, 0, 0, 0, l2, 1); put_seed(dir, "props-lzma1", E_PROPERTIES, 0, 0, 1, 0, 0, l1, 5); put_seed(dir, "props-delta", E_PROPERTIES, 0, 0, 2, 0, 0, dl, 1); put_seed(dir, "props-x86", E_PROPERTIES, 0, 0, 3, 0, 0, bj, 4); }
+	// an Index that announces about 2^60 Records (a legal 9-byte VLI) and then carries one: the preallocation size computation must
+	// not wrap (expected: LZMA_MEM_ERROR / LZMA_MEMLIMIT_ERROR / LZMA_DATA_ERROR, never a small allocation that is written past)
+	for (unsigned sh = 59; sh <= 62; ++sh) for (unsigned e = 0; e < 2; ++e) {
+		std::vector<uint8_t> ix; ix.push_back(0x00); uint8_t vb[9]; size_t vn = ref::vli_encode((1ull << sh) + (sh == 60 ? 1 : 0), vb); ix.insert(ix.end(), vb, vb + vn);
+		ix.push_back(0x20); ix.push_back(0x10); while (ix.size() & 3) ix.push_back(0); uint32_t crc = ref::crc32(ix.data(), ix.size()); for (int i = 0; i < 4; ++i) ix.push_back((uint8_t)(crc >> (8 * i)));
+		char nm[48]; snprintf(nm, sizeof nm, "index-announces-2^%u-records", sh); put_seed(dir, nm, e ? E_INDEX_BUF : E_INDEX, 0, 0, 0, 0, 0, ix.data(), ix.size());
+	}
+	// BCJ filters whose 4-byte Properties field is present and holds start offset 0 (valid; liblzma's own encoder omits the field)
+	{ static const uint8_t ids[] = {0x04, 0x05, 0x07, 0x0A, 0x0B}; unsigned k = 0;
+		for (uint8_t id : ids) { const uint8_t ff[6] = {id, 0x04, 0, 0, 0, 0}; char nm[48]; snprintf(nm, sizeof nm, "filter-flags-bcj-%02x-explicit-offset-0", id); put_seed(dir, nm, E_FILTER_FLAGS, 0, 0, 0, 0, 0, ff, 6);
+			// the same inside a Block Header: [size][flags=1: two filters][BCJ id, 4, 0000][LZMA2 0x21, 1, dict][padding][CRC32]
+			std::vector<uint8_t> h = {0, 0x01, id, 0x04, 0, 0, 0, 0, 0x21, 0x01, 0x08}; while ((h.size() + 4) & 3) h.push_back(0); h[0] = (uint8_t)((h.size() + 4) / 4 - 1);
+			uint32_t crc = ref::crc32(h.data(), h.size()); for (int i = 0; i < 4; ++i) h.push_back((uint8_t)(crc >> (8 * i)));
+			snprintf(nm, sizeof nm, "block-header-bcj-%02x-explicit-offset-0", id); put_seed(dir, nm, (k++ & 1) ? E_BLOCK : E_BLOCK_HEADER, 0, 0, 1, 0, 0, h.data(), h.size()); } }
 	// raw LZMA1 streams cut inside a symbol that costs ~17 input bytes (ref/lzma_adv.h): with the whole input in one exact-size
 	// block, an unchecked fast decoding loop entered with fewer bytes left than one symbol can need reads past the block
 	{ ref::AdvStream A = ref::adversarial_stream(160, 0);
